@@ -358,6 +358,18 @@ func (rs *ResourceSubscription) processGetResponse(payload []byte, err error) (n
 
 	// Get request failed
 	if err != nil {
+		// If the resource has already been loaded by the response to another
+		// query normalized to this one, the error is disregarded. The waiting
+		// subscribers are given the loaded resource.
+		if rs.state > stateRequested {
+			sublist = make([]Subscriber, 0, len(rs.subs))
+			for sub := range rs.subs {
+				sublist = append(sublist, sub)
+			}
+			nrs = rs
+			return
+		}
+
 		// Set state and store the error in case any other
 		// subscriber are waiting on the Lock to subscribe
 		rs.state = stateError
